@@ -143,6 +143,14 @@ RemoveEff(r, p, i, devs) ==
 
 Eff(r, op, devs) == IF op.op = "at" THEN AtEff(r, op.p, op.i, op.v, devs) ELSE RemoveEff(r, op.p, op.i, devs)
 
+(* "atrm": at(p, i) and remove(p, i) issued concurrently, the registration first.  The object server serialises
+   them: the outcome is that of `at` followed by `remove` (two effects, because the signals of the two do not
+   commute: InterfacesAdded must reach a client before the InterfacesRemoved that cancels it). *)
+AtRmEff(r, op, devs) ==
+  LET a == AtEff(r, op.p, op.i, op.v, devs)
+      b == RemoveEff(a.reg, op.p, op.i, devs)
+  IN  [first |-> a, second |-> b, res |-> a.res \o "+" \o b.res]
+
 (* The tracking client (C25): per path a mirror that is `on` while an ObjectManager is there.  It   *)
 (* starts from the manager's listing (GetManagedObjects after the step that made the manager        *)
 (* appear) and afterwards applies that manager's signals.                                          *)
